@@ -4,7 +4,7 @@ import os
 import re
 
 from .core import Finding, RuleResult, FactError, op_local
-from .lib_errdisc import run_errdisc
+from .lib_errdisc import run_errdisc, closure_arg_body
 from .lib_range import check_helpers, helper_checks, interval_from, path_forces_err, decode_cond
 from . import witness
 
@@ -125,7 +125,30 @@ def run(facts, tier, ctx):
                                "accepted unchecked" % (p, child, field)),
                        {"parent": p, "field": field, "child": child, "verdict": "FAIL", "site": where})
         else:
-            chain.ok({"parent": p, "field": field, "child": child, "verdict": "ok", "site": hit[0].loc(hit[1], "term")})
+            # the child's verification is unconditional: every Ok return of the parent's verify() passes it
+            from .lib_mpt import mpt, path_str
+            from .lib_fill import ok_returns
+            hb, hbi = hit
+            through = []
+            if hb is vb:
+                through = [hbi]
+            else:
+                # the call sits in a closure: the block of verify() that hands that closure to a combinator
+                for bi2, t2 in vb.calls():
+                    for a in t2["args"]:
+                        cb = closure_arg_body(facts, vb, a)
+                        if cb is not None and (cb.id == hb.id or hb.id.startswith(cb.id + "::")):
+                            through.append(bi2)
+            oks = ok_returns(vb)
+            direct_ok = [bb for bb in vb.returns()] if not oks else oks
+            okp, path = mpt(vb, through, 0, direct_ok) if through else (False, None)
+            if okp:
+                chain.ok({"parent": p, "field": field, "child": child, "verdict": "ok", "site": hit[0].loc(hit[1], "term")})
+            else:
+                chain.fail(Finding("CHAIN", vb.id, "conditional:%s.%s->%s" % (p, field, child), 0, where,
+                                   "%s::verify can return Ok without verifying self.%s (%s): out-of-range values of that "
+                                   "sub-tree are accepted on that path" % (p, field, path_str(vb, path) if path else "no path info")),
+                           {"parent": p, "field": field, "child": child, "verdict": "FAIL", "site": where})
     chain.require_floor(7, "parent->child Verify edges of the config tree")
 
     # ------------------------------------------------------------ propagation
